@@ -106,6 +106,15 @@ theorem src_angles (al be ga : K) : Generated.BoxSource.anglesRejected al be ga 
   simp only [Generated.BoxSource.anglesRejected, anglesOk, Bool.not_and, Bool.or_assoc]
   simp only [← not_lt, decide_not]
 
+/-- `tools/vect_angle.py`: each vector is divided by its own `np.linalg.norm`, the cosine is the inner product of the two
+    unit vectors (`angleCos` of the model — with `angleCos_spec`, `angleCos_sq_le_one`, `angleCos_scale` of
+    `Proofs/C01_Scale.lean`: the cosine of the angle, within [-1, 1], independent of the unit of length), clamped and turned
+    into degrees; `alpha beta gamma` call it with rows (1,2), (0,2), (0,1) of `vects`. -/
+theorem src_vect_angle (u v : V3 K) (n1 n2 : K) :
+    Generated.BoxSource.vectAngleCos u v n1 n2 = angleCos u v n1 n2 ∧
+    Generated.BoxSource.vectAngleClampsAndDegrees = true ∧
+    Generated.BoxSource.angleGetters = [("alpha", 1, 2), ("beta", 0, 2), ("gamma", 0, 1)] := ⟨rfl, rfl, rfl⟩
+
 /-! ### inside / outside -/
 
 /-- `Plane.below` with the stored normal `normal / λ`. -/
